@@ -129,9 +129,14 @@ def gen_generic(draw):
             steps.append(["remove", draw(st.integers(0, nf - 1))])
         elif sel == 5:
             steps.append(["remove_unknown"])
-        else:
+        elif sel <= 7:
             a, b = draw(st.permutations([0, 1, 2]))[:2]
             steps.append(["conv", a, b, draw(st.sampled_from([7, 7, 0, -3]))])
+        else:
+            # a sum across units needs the RIGHT operand in the left operand's unit (the converters are
+            # directional: knowing a -> b says nothing about b -> a)
+            a, b = draw(st.permutations([0, 1, 2]))[:2]
+            steps.append(["add", a, b, draw(st.sampled_from([7, 0, -3])), draw(st.sampled_from([5, 1, -2]))])
     return {"k": "generic", "funcs": funcs, "steps": steps}
 
 
@@ -383,6 +388,31 @@ def _run_generic(case, ctx):
                     return
                 model.remove(stp[1])
                 removed = True
+        elif stp[0] == "add":
+            a, b, x, y = stp[1:]
+            want = None
+            for fi in reversed(model):
+                if [b, a] in case["funcs"][fi]["pairs"]:
+                    want = x + y * case["funcs"][fi]["factor"]
+                    break
+            ctx.tick()
+            ctx.label("generic/add")
+            try:
+                res = G(x, units[a]) + G(y, units[b])
+            except UnitConversionError:
+                if want is not None:
+                    ctx.viol("generic/add/rejected", f"{where}: raised UnitConversionError; converters {model} "
+                             f"(most recent last) convert the right operand, sum should be {want}")
+                    return
+                continue
+            except Exception as exc:  # noqa: BLE001
+                ctx.viol(f"generic/add/{type(exc).__name__}", f"{where}: raised {type(exc).__name__}: {exc}")
+                return
+            if want is None or res.unit is not units[a] or F(res.amount) != want:
+                ctx.viol("generic/add/wrong", f"{where}: = {res!r}; converters {model} (most recent last), expected "
+                         + (f"{want} {units[a]}" if want is not None else "UnitConversionError"))
+                return
+            continue
         else:
             a, b = stp[1], stp[2]
             amt = stp[3] if len(stp) > 3 else 7
